@@ -294,6 +294,8 @@ def conclude(pid, tier, seed, mod, mod_name, names, results, t0):
         try:
             res = replay_cases(mod_name, selfcheck_cases[:400])
             for c, r in zip(selfcheck_cases, res):
+                if r.get('skipped'):
+                    continue
                 self_checked += 1
                 if not r.get('match', False):
                     machinery.append(
